@@ -169,31 +169,43 @@ def run_model_case(case, ctx):
     ctx.check(bd[1:-1] == ranks, 'bond_dimension_equals_operator_schmidt_rank', f'bond_dims={bd} schmidt_ranks={ranks}')
 
 
+# types a vanishing coefficient may legitimately have (a chain with such a coefficient is a chain with zero coefficient)
+ZERO_TYPES = {'float': 0.0, 'int': 0, 'complex': 0j, 'np.int64': np.int64(0), 'np.complex128': np.complex128(0), 'np.float32': np.float32(0), '-0.0': -0.0}
+
+
 def run_chain_case(case, ctx):
     L, mode, chains = case['L'], case['mode'], case['chains']
     nz = [c for c in chains if c05.cval(c[2]) != 0]
     if not nz:
         raise OutOfDomain()
-    ocs = [OpChain(w, q, c05.cval(c), istart) for istart, w, c, q in chains]
-    graph = OpGraph.from_opchains(ocs, L, 0)
-    ctx.calls += 1
-    layers = sym.graph_layers(graph)
-    if not ctx.check(layers is not None and len(layers) == L + 1, 'graph_layered', None):
-        return
-    widths = [len(l) for l in layers]
-    qd = [0, 0] if mode != 'consistent' else sym.FAITHFUL_QD
-    if mode in ('interior', 'interior_neg'):
-        bd = widths
-    else:
-        # (operator labels of the C05 spaces may be arbitrary integers: same assignment of the faithful operators as in C05)
-        labels = sorted({o for _, w, _, _ in chains for o in w} | {0})
-        opmap = sym.FAITHFUL if all(0 <= o <= 3 for o in labels) else {o: sym.FAITHFUL[abs(o) % 4] for o in labels}
-        mpo = MPO.from_opgraph(qd, graph, opmap)
-        bd = list(mpo.bond_dims)
-    ctx.obs(np.asarray(bd))
-    ctx.nontrivial = max(bd) >= 2 or len(nz) >= 2
-    ctx.cls(f'nz={len(nz)}:maxbond={max(bd)}')
-    ctx.check(all(b <= len(nz) for b in bd), 'bond_dimension_at_most_number_of_nonzero_chains', f'bond_dims={bd} nonzero_chains={len(nz)}')
+    has_zero = len(nz) < len(chains)
+    for zt, zero in ZERO_TYPES.items():
+        if zt != 'float' and not has_zero:
+            break
+        ocs = [OpChain(w, q, (c05.cval(c) if c05.cval(c) != 0 else zero), istart) for istart, w, c, q in chains]
+        graph = OpGraph.from_opchains(ocs, L, 0)
+        ctx.calls += 1
+        if has_zero:
+            ctx.cls('zero_coefficient_type:' + zt)
+        layers = sym.graph_layers(graph)
+        if not ctx.check(layers is not None and len(layers) == L + 1, 'graph_layered', None):
+            return
+        widths = [len(l) for l in layers]
+        qd = [0, 0] if mode != 'consistent' else sym.FAITHFUL_QD
+        if mode in ('interior', 'interior_neg'):
+            bd = widths
+        else:
+            # (operator labels of the C05 spaces may be arbitrary integers: same assignment of the faithful operators as in C05)
+            labels = sorted({o for _, w, _, _ in chains for o in w} | {0})
+            opmap = sym.FAITHFUL if all(0 <= o <= 3 for o in labels) else {o: sym.FAITHFUL[abs(o) % 4] for o in labels}
+            mpo = MPO.from_opgraph(qd, graph, opmap)
+            bd = list(mpo.bond_dims)
+        ctx.obs(np.asarray(bd))
+        ctx.nontrivial = max(bd) >= 2 or len(nz) >= 2
+        ctx.cls(f'nz={len(nz)}:maxbond={max(bd)}')
+        if not ctx.check(all(b <= len(nz) for b in bd), 'bond_dimension_at_most_number_of_nonzero_chains',
+                         f'bond_dims={bd} nonzero_chains={len(nz)} zero_type={zt}'):
+            return
 
 
 def _graph_cases(tier):
